@@ -229,7 +229,7 @@ def job(j: dict) -> dict:
     out = {}
     for fmt in ("json", "text", "sarif"):
         argv, proj = argv_for(j["cmd"], j["fault"], j["input"], fmt)
-        r = drive.cli_subprocess([j["cmd"]] + argv, cwd=base / proj, timeout=120)
+        r = drive.cli_subprocess((["--verbose"] if j.get("verbose") else []) + [j["cmd"]] + argv, cwd=base / proj, timeout=120)
         out[fmt] = {"exit": r["exit"], "raw": r["raw_stdout"], "stderr": r["stderr"][-300:], "hang": r["hang"]}
     jv, total, jok = parse_json(out["json"]["raw"])
     sar = parse_sarif(out["sarif"]["raw"])
@@ -279,6 +279,10 @@ def run(chk) -> None:
             if quick and fault != "none" and (hash((cmd, fault)) % 2) and cmd not in ("nesting", "dry"):
                 continue
             jobs.append({"cmd": cmd, "fault": fault, "input": inp})
+            # the same invocation with the global --verbose flag: for every error class (rotating over the commands in
+            # the quick tier) and for one clean run per command
+            if (fault != "none" and (not quick or (len(jobs) % 3 == 0))) or (fault == "none" and inp == "file"):
+                jobs.append({"cmd": cmd, "fault": fault, "input": inp, "verbose": True})
     nshare = NCPU
     for i, j in enumerate(jobs):
         j["root"] = str(scratch_root() / f"c06-{i % nshare}")
@@ -302,10 +306,13 @@ def run(chk) -> None:
     verdicts = trace.validate(chk, "RunTrace", "mc/RunTrace.cfg", records)
     for (j, o), (la, lb, at) in zip(meta, verdicts):
         case = {"cmd": j["cmd"], "fault": j["fault"], "input": j["input"]}
+        if j.get("verbose"):
+            case["verbose"] = True
         chk.count(case, nontrivial=j["fault"] != "none" or o["detail"]["json_n"] > 0)
         if la != "ok":
             rec = o["rec"]
-            chk.reject({"cmd": j["cmd"], "clause": la, "fault": j["fault"], "input": j["input"]},
+            chk.reject(dict({"cmd": j["cmd"], "clause": la, "fault": j["fault"], "input": j["input"]},
+                            **({"verbose": True} if j.get("verbose") else {})),
                        dict(case, exits=[rec["exit_text"], rec["exit_json"], rec["exit_sarif"]],
                             detail=o["detail"]),
                        f"{la}: thailint {j['cmd']} fault={j['fault']} input={j['input']} exits(text,json,sarif)="
